@@ -35,6 +35,9 @@ SEEDS = [
     (["1 + 2", ":resume", ":resume"], [2]),
     (["let i = 0  while i < 5 { i += 1 }  i", ":resume", ":stack", ":resume"], [7, 15]),
     (["nosuch1 + 1", "fun nosuch1() { 1 }", ":resume", ":replace 3", ":resume"], []),
+    # replay of the recorded finding C09/replace-value-discipline (known_findings.json), in every run
+    (["for x in [1, 2] { nosuchf }", ":replace nosuch3", ":replace nosuch4",
+      "fun nosuchf() {} fun nosuch3() {} fun nosuch4() {}", ":resume"], []),
 ]
 
 
